@@ -73,6 +73,14 @@ func capEval(tr *Tracer, rng *rand.Rand, caps [][][2]int, v int, custom bool, vi
 		t.VersionComparer = capCustom
 	}
 	var cs []*capability.Capability
+	// descriptions are free text: equal and empty ones must not make capabilities share an answer
+	descs := []string{"", "cap", "cap", "feature x"}
+	desc := func(i int) string {
+		if rng.Intn(2) == 0 {
+			return descs[rng.Intn(len(descs))]
+		}
+		return fmt.Sprintf("c%d", i)
+	}
 	for i, rs := range caps {
 		var c *capability.Capability
 		// NewCapability pairs its arguments; usable when no range has an empty lower bound
@@ -94,9 +102,9 @@ func capEval(tr *Tracer, rng *rand.Rand, caps [][][2]int, v int, custom bool, vi
 					args = append(args, str(r[1]))
 				}
 			}
-			c = capability.NewCapability(fmt.Sprintf("c%d", i), args...)
+			c = capability.NewCapability(desc(i), args...)
 		} else {
-			c = &capability.Capability{Description: fmt.Sprintf("c%d", i)}
+			c = &capability.Capability{Description: desc(i)}
 			for _, r := range rs {
 				c.VersionRanges = append(c.VersionRanges, capability.VersionRange{Introduced: str(r[0]), Removed: str(r[1])})
 			}
